@@ -287,6 +287,49 @@ Section Roundtrip.
     unfold val. cbn. reflexivity.
   Qed.
 
+  (* ... and the same with a PENDING patch: the cycle's patch is shared, earlier operations of the same cycle may have
+     left anything under metadata.annotations - a purge (null) of this very key, another value for it, other keys.
+     Whatever is pending, the record stored last is what is read back. *)
+  Definition pending (anns : list (string * json)) : json := JObj [("metadata", JObj [("annotations", JObj anns)])].
+
+  Lemma pending_wf anns k :
+    nodup_keys (map fst anns) = true -> (forall v, lookup k anns = Some v -> is_obj v = false) ->
+    wf_along (pending anns) (ann_path k) = true.
+  Proof.
+    intros ND Lf. unfold pending, ann_path. cbn. rewrite ND. cbn.
+    destruct (lookup k anns) as [v|] eqn:L; [|reflexivity]. specialize (Lf v eq_refl). destruct v; try reflexivity; discriminate.
+  Qed.
+
+  Lemma pending_wf_meta anns : nodup_keys (map fst anns) = true -> wf_along (pending anns) meta = true.
+  Proof. intro ND. unfold pending, meta. cbn. rewrite ND. reflexivity. Qed.
+
+  Theorem ann_roundtrip_pending prefix v1 verbose tk key record body anns patch :
+    nodup_keys (map fst anns) = true -> (forall k v, lookup k anns = Some v -> is_obj v = false) ->
+    pstore dg (PAnn prefix v1 verbose tk) key record body (pending anns) = Ok patch ->
+    pfetch dg (PAnn prefix v1 verbose tk) key (merge body patch)
+    = Ok (Some (JObj (if verbose then record else drop_nulls record))).
+  Proof.
+    intros ND Lf. cbn [pstore pfetch]. intro H.
+    match type of H with bind ?e _ = _ => destruct e as [p1| | |] eqn:E; try discriminate end.
+    cbn [bind] in H.
+    set (ks := full_keys dg prefix v1 body key) in *.
+    set (val := JEnc (JObj (if verbose then record else drop_nulls record))) in *.
+    assert (Hks : exists k2 rest, ks = k2 :: rest).
+    { unfold ks, full_keys, make_keys. cbn [map]. eexists. eexists. reflexivity. }
+    destruct Hks as (k2 & rest & Eks).
+    destruct (ensure_all_resolve ks (pending anns) val p1 (pending_wf_meta anns ND) eq_refl
+                                 (fun k _ => pending_wf anns k ND (Lf k)) E) as (_ & R).
+    destruct (R k2 ltac:(rewrite Eks; left; reflexivity)) as (R2 & W2).
+    destruct (store_marker_keeps prefix body p1 patch k2 val H R2 W2) as (R3 & W3).
+    assert (A : ann_only patch).
+    { eapply store_marker_ann_only; [|exact H]. eapply ensure_all_ann_only; [right; eexists; reflexivity|exact E]. }
+    assert (Ek : full_keys dg prefix v1 (merge body patch) key = ks).
+    { unfold ks, full_keys. rewrite (is_drs_merge body patch A). reflexivity. }
+    rewrite Ek, Eks. cbn [fetch_keys].
+    rewrite (resolve_merge_leaf body patch (ann_path k2) val (wf_along_wf_path _ _ W3) ltac:(discriminate) R3 eq_refl ltac:(discriminate)).
+    unfold val. cbn. reflexivity.
+  Qed.
+
   (* ---------- isolation ---------- *)
   (* keys the storage never writes stay unresolved in the patch ... *)
   Lemma ensure_all_other ks : forall p v p' k',
